@@ -816,6 +816,35 @@ def oracle(ctx: Ctx) -> OracleResult:
             print(f'  C09 history {info["scenario"]}/{info.get("variant")} fails [{sig}]')
     res.failures += first + later
 
+    # (w) the stream-session and SFTP waiter tables on the real classes, judged from the property text: once the
+    #     session / handler has been told that the connection is lost, nothing it was asked to wait for is still
+    #     pending (no model involved; the correspondence compares the same scripts with the Lean tables)
+    wrng = ctx.subrng('oracle-waiters')
+    wscripts: List[List[str]] = [list(s['script']) for s in ctx.suspects
+                                 if isinstance(s, dict) and s.get('kind') == 'waiters']
+    wscripts += [gen_stream_script(wrng) for _ in range(ctx.n(150, 2000))] + \
+                [gen_sftp_script(wrng) for _ in range(ctx.n(80, 1000))]
+    wrep: Dict[str, int] = collections.Counter()
+    for sc, ro in zip(wscripts, pair.run(_run_waiter_scripts(wscripts), timeout=1200)):
+        res.evaluations += 1
+        lost = False
+        for l, a in zip(sc, ro):
+            ws = l.split()
+            if len(ws) >= 2 and ws[1] == 'lost':
+                lost = True
+            if lost and l.endswith('show') and 'blocked=' in a:
+                b = a.split('blocked=')[1].split(';')[0].split(',')
+                if any(x not in ('0', '-') for x in b):
+                    which = [n for n, x in zip(('read', 'read-stderr', 'drain'), b) if x not in ('0', '-')]
+                    sig = f'waiter-hangs-after-connection-lost:{ws[0]}:' + '+'.join(which)
+                    wrep[sig] += 1
+                    if wrep[sig] <= 2:
+                        res.failures.append(Failure(sig, f'{ws[0]} waiter table: after connection_lost was delivered '
+                                                         f'{a!r}: still blocked: {which}; script {sc}',
+                                                    {'kind': 'waiters', 'script': sc}))
+                    break
+    hist.hit('waiter-scripts', len(wscripts))
+
     # (a) suspects from the correspondence first, then fresh scripts with cuts at every packet boundary --------
     items: List[Tuple[List[str], str]] = []
     for s in ctx.suspects:
@@ -927,6 +956,16 @@ def replay(ctx: Ctx, rep: Dict[str, Any]) -> List[Failure]:
     if kind == 'history':
         info = pair.run(F.run_one(r['scenario'], tuple(r.get('args', []))), timeout=120)
         return [Failure(sig, what, r) for sig, what in F.judge(info)]
+    if kind == 'waiters':
+        (ro,) = pair.run(_run_waiter_scripts([r['script']]), timeout=120)
+        lost = False
+        for l, a in zip(r['script'], ro):
+            ws = l.split()
+            lost = lost or (len(ws) >= 2 and ws[1] == 'lost')
+            if lost and l.endswith('show') and 'blocked=' in a and \
+                    any(x not in ('0', '-') for x in a.split('blocked=')[1].split(';')[0].split(',')):
+                return [Failure('waiter-hangs-after-connection-lost:' + ws[0], a, r)]
+        return []
     if kind == 'handshake':
         info = pair.run(_handshake_case(r['cut_after']))
         return [Failure('connect-never-completes', str(info), r)] if info['connect'] == 'pending' else []
